@@ -126,6 +126,8 @@ impl Cfg {
             Cfg::T(c) => Cfg::T(c.clone()),
         }
     }
+    /// `entries()` as a key-sorted map; a key listed more than once keeps its first value, the later
+    /// ones are kept under `<key>#dup` (reported by `evaluate` as finding `duplicate-key:<key>`)
     pub fn entries(&self) -> Result<Entries, String> {
         let list = match self {
             Cfg::S(c) => c.entries(),
@@ -133,12 +135,21 @@ impl Cfg {
         };
         let mut m = Entries::new();
         for e in list {
-            if m.insert(e.key.clone(), e.value).is_some() {
-                return Err(format!("entries() lists key {} twice", e.key));
+            if m.contains_key(&e.key) {
+                m.insert(format!("{}#dup", e.key), e.value);
+            } else {
+                m.insert(e.key, e.value);
             }
         }
         Ok(m)
     }
+}
+
+fn duplicate_key(e: &Entries) -> Option<Finding> {
+    e.keys().find(|k| k.ends_with("#dup")).map(|k| {
+        let k = k.trim_end_matches("#dup");
+        Finding { class: format!("duplicate-key:{k}"), message: format!("entries() lists key {k} more than once: {:?} and {:?}", e.get(k), e.get(&format!("{k}#dup"))) }
+    })
 }
 
 /// every key of the target, in `entries()` order of the default configuration, plus dynamic ones
@@ -216,6 +227,9 @@ pub fn sweep(cfg: &Cfg) -> Result<usize, Finding> {
     let mut n = 0;
     for (k, v) in &before {
         let Some(text) = v else { continue };
+        if k.ends_with("#dup") {
+            continue;
+        }
         let mut c = cfg.dup();
         n += 1;
         match c.set(k, text) {
@@ -297,6 +311,9 @@ pub fn check_set(cfg: &mut Cfg, defaults: &Entries, key: &str, value: &str) -> R
             }
         }
     }
+    if let Some(f) = cfg.entries().ok().as_ref().and_then(duplicate_key) {
+        return Err(f);
+    }
     Ok(out)
 }
 
@@ -331,6 +348,9 @@ pub fn evaluate(case: &Case) -> Result<Outcome, Finding> {
     if case.sweep {
         sweep(&cfg)?;
         out.labels.push("sweep".into());
+    }
+    if let Some(f) = cfg.entries().ok().as_ref().and_then(duplicate_key) {
+        return Err(f);
     }
     Ok(out)
 }
